@@ -10,6 +10,7 @@ import (
 	"hash/fnv"
 	"os"
 	"runtime"
+	"runtime/debug"
 	"sort"
 	"strconv"
 	"strings"
@@ -263,6 +264,9 @@ func vCatch(f func()) (frame string, msg string) {
 		if e := recover(); e != nil {
 			frame = vRepoFrame(3)
 			msg = fmt.Sprint(e)
+			if os.Getenv("VERIF_STACK") != "" {
+				fmt.Fprintf(os.Stderr, "PANIC %v\n%s\n", e, debug.Stack())
+			}
 			if len(msg) > 160 {
 				msg = msg[:160]
 			}
